@@ -111,6 +111,40 @@ def gen_firewall():
         scan(find_func(sock, name, cls='SocketDriver'), 'SocketDriver.' + name)
     scan(run, 'drivers.run')
     scan(fm, 'Irc.feedMsg')
+    # every plugin class of the bundled plugins and the hooks (methods named in IrcCallback's or
+    # Commands' __firewalled__) it overrides in its body
+    import os, warnings
+    from vlib import REPO
+    cbtree = parse('src/callbacks.py')
+    commands_fw = _firewalled(cbtree, 'Commands')
+    hook_names = set(k for k, _ in _firewalled(irclib, 'IrcCallback')) | set(k for k, _ in commands_fw)
+    PLUGIN_BASES = {'Plugin', 'PluginRegexp', 'Privmsg', 'PrivmsgCommandAndRegexp', 'IrcCallback', 'PluginMixin', 'Commands'}
+    hook_defs = []
+    pdir = os.path.join(REPO, 'plugins')
+    for pl in sorted(os.listdir(pdir)):
+        f = os.path.join(pdir, pl, 'plugin.py')
+        if not os.path.isfile(f): continue
+        with warnings.catch_warnings():
+            warnings.simplefilter('ignore')
+            t = parse(os.path.relpath(f, REPO))
+        local = {}
+        for n in t.body:
+            if isinstance(n, ast.ClassDef):
+                bases = [b.attr if isinstance(b, ast.Attribute) else b.id if isinstance(b, ast.Name) else '?' for b in n.bases]
+                local[n.name] = (bases, n)
+        def is_plugin(name, seen=()):
+            if name in PLUGIN_BASES: return True
+            if name in local and name not in seen:
+                return any(is_plugin(b, seen + (name,)) for b in local[name][0])
+            return False
+        for name, (bases, node) in sorted(local.items()):
+            if any(is_plugin(b, (name,)) for b in bases):
+                own_fw = any(isinstance(x, ast.Assign) and any(isinstance(tg, ast.Name) and tg.id == '__firewalled__' for tg in x.targets) for x in node.body)
+                if own_fw:
+                    raise ExtractionError('%s.%s defines its own __firewalled__: extend the extractor' % (pl, name))
+                hooks = sorted(x.name for x in node.body if isinstance(x, (ast.FunctionDef, ast.AsyncFunctionDef)) and x.name in hook_names)
+                if hooks:
+                    hook_defs.append((pl, name, hooks))
     body = ('namespace Gen\n\n'
             '/-- irclib.Irc.__firewalled__: (method, has an error handler) -/\n'
             'def ircFirewalled : List (String × Bool) :=\n  %s\n\n'
@@ -135,11 +169,17 @@ def gen_firewall():
             'def readCatches : List String := %s\n\n'
             '/-- functions of the read/write path containing a log call whose message is formatted before the call -/\n'
             'def preformattedLogCalls : List String := %s\n\n'
+            '/-- callbacks.Commands.__firewalled__ -/\n'
+            'def commandsFirewalled : List (String × Bool) :=\n  %s\n\n'
+            '/-- every plugin class of plugins/*/plugin.py that overrides a hook named in a __firewalled__ map: (plugin, class, hooks) -/\n'
+            'def pluginHookDefs : List (String × String × List String) :=\n  %s\n\n'
             'end Gen\n') % (
         _lean_pairs(_firewalled(irclib, 'Irc')), _lean_pairs(_firewalled(irclib, 'IrcState')),
         _lean_pairs(_firewalled(irclib, 'IrcCallback')), lstring(outer), lstring(handler), lstring(run_catch),
         llist(lstring(x) for x in parse_catch),
         llist('(%s, %s)' % (lstring(a), lstring(b)) for a, b in regions),
         'true' if unprotected_dispatch else 'false', lstring(errors), llist(lstring(x) for x in read_catches),
-        llist(lstring(x) for x in sorted(set(preformatted))))
+        llist(lstring(x) for x in sorted(set(preformatted))),
+        _lean_pairs(commands_fw),
+        llist('(%s, %s, %s)' % (lstring(a), lstring(b), llist(lstring(h) for h in hs)) for a, b, hs in hook_defs))
     write_if_changed('Firewall.lean', body, 'src/irclib.py, src/log.py, src/drivers/__init__.py, src/drivers/Socket.py')
